@@ -321,6 +321,29 @@ Section ModelProofs.
     - destruct z; [reflexivity|now elim Hn].
   Qed.
 
+  (* augmented assignment: same acceptance rule as plain assignment; the storage
+     holds the operated values in any case *)
+  Lemma model_aug_spec md p vs :
+    (snd (Maps.model_aug pos0 isz bwF ovf zero md p vs) = None <->
+     get_prop md p <> None /\ List.Forall (accepts (m_map md) p) vs) /\
+    (get_prop md p <> None ->
+     fst (Maps.model_aug pos0 isz bwF ovf zero md p vs) = set_prop md p (Some vs)) /\
+    (get_prop md p = None ->
+     Maps.model_aug pos0 isz bwF ovf zero md p vs = (md, Some ErrType)).
+  Proof using zero_not_pos.
+    unfold Maps.model_aug. destruct (get_prop md p) as [l|] eqn:E; cbn [fst snd].
+    - split; [|split].
+      + rewrite (check_pf_accepts pos0 isz bwF ovf zero zero_not_pos). split.
+        * intros [_ H]. split; [discriminate|exact H].
+        * intros [_ H]. split; [discriminate|exact H].
+      + reflexivity.
+      + discriminate.
+    - split; [|split].
+      + split; [discriminate|intros [H _]; now elim H].
+      + intros H; now elim H.
+      + reflexivity.
+  Qed.
+
   (* acceptance only depends on the sign of the back-mapped values *)
   Lemma forallb_map' {A B} (f : B -> bool) (g : A -> B) l :
     forallb f (map g l) = forallb (fun a => f (g a)) l.
